@@ -98,6 +98,31 @@ CHECKS["C13"] = (
     "DESIGN.md section 4, C13",
 )
 
+CHECKS["C04"] = (
+    "property-based testing: exhaustive lattice over every shipped pure record x 8 reduced temperatures with round trips pure(T) -> p -> pure(p) -> T' -> pure(T'); generated temperatures, solver options, specifications; PhaseDiagram::pure monotonicity oracle; mixture helper functions vs directly built pure models; random Peng-Robinson / PeTS / uv-theory records (conditions whenever Ok)",
+    "Lattice of 17 528 solves (2 191 records of the PC-SAFT, SAFT-VR Mie and SAFT-VRQ Mie collections x 8 temperatures of that model's own critical temperature; success demanded, failures keyed exactly by (record, temperature) in a known finding), 20 000 sampled solves, 512 diagrams with npoints in [3,200], 2 000 mixture-helper cases, 6 000 random-model cases per quick run. Equilibrium conditions are recomputed from fresh states at the returned (T, rho).",
+    "Tolerances: pressure / chemical-potential equality 2e-6 in reduced units (the solver stops on the pressure update while the densities lag one Newton step; measured worst 3e-7), T round trip 1e-7. Open known findings: spurious SAFT-VR Mie critical points (six lafitte2013 records), pure(T) failures on a thin keyed set of (record, T) inside the stated success domain, collapsed solution for two SAFT-VRQ Mie hydrogen records.",
+    "DESIGN.md section 4, C04",
+)
+CHECKS["C12"] = (
+    "metamorphic / differential property-based testing: guided vs unguided solver calls (previous equilibrium, tp_init, molefracs_init, initial density / temperature in single-root situations) and every diagram point vs its stand-alone solve, incl. mirrored component order and points after failing neighbours",
+    "Seven sampled parts (about 15 900 cases per quick run): pure VLE with guesses up to 0.3 Tc away, state constructors with initial density / temperature where an independent isotherm scan finds exactly one root, flashes started from neighbouring solutions, bubble / dew points with guesses within a factor 3, pure and binary phase diagrams and bubble / dew lines compared point by point with stand-alone solves.",
+    "Hydrocarbon PC-SAFT systems without liquid-liquid demixing (T >= 0.5 of the highest pure Tc). Results on a different solution branch (bubble/dew exchange, retrograde envelopes) are counted inconclusive. Tolerances 2e-7 (T, p, x), 1e-6 pure saturation pressure, 1e-5 flash densities. Open known findings: swapped vapor()/liquid() after a guess from a higher temperature, bubble/dew pressure runaway and near-trivial results with in-range guesses, dew_point_line panic after a failed point, density iteration one Newton step short.",
+    "DESIGN.md section 4, C12",
+)
+CHECKS["C16"] = (
+    "property-based testing with the bulk equation of state as reference model: generated (functional, bulk state, grid type/size/length, Lanczos setting, profile wrapper) with the density set to the bulk value everywhere; independent geometric volume formulas as second oracle",
+    "1 504 profiles per quick run over 5 functional families x 3 FMT versions x 8 grid kinds (Cartesian 1-3D, periodic 2-3D with angles, spherical, polar, cylindrical) x pore / pair-correlation / solvation wrappers: weighted densities, Euler-Lagrange residual, grand potential density = -p, moles, zero excess grand potential / tension / adsorption / solvation energy, volume() = integral of one = geometric volume, one solve() call leaves the profile unchanged.",
+    "Tolerances carry the measured roundoff amplification (1 + k_max R_max) of the Kierlik-Rosinberg weights and the documented ln(|rho| + EPSILON) regularisation of the ideal-chain term; iterative association to tol_cross_assoc. gc ring molecules (panic by design) and PairCorrelation with heterosegmented functionals are excluded. Lanczos factors are trivial for a uniform fluid.",
+    "DESIGN.md section 4, C16",
+)
+CHECKS["C17"] = (
+    "property-based testing with numerical-derivative and adjointness oracles: Ridders first variation of the integrated Helmholtz energy vs the functional derivative (localised per contribution); exact adjointness of weighted-density and functional-derivative convolutions per kernel (exhaustive lattice of kernel shapes x geometries x sizes); black-box second variation through one Newton step and Richardson differences of the public residual; observed order of Newton convergence",
+    "Per quick run: 512 generated first-variation cases (tanh / oscillating profiles, Gaussian perturbations, all grid kinds and functionals incl. heterosegmented chains), an exhaustive lattice of 684 kernel-shape adjointness cases, 304 Newton-step cases (rho and ln rho, external potentials, frozen regions, pores, bond integrals), 112 Newton-convergence cases.",
+    "Polar / cylindrical axes are decided only to the accuracy of the quasi-discrete Hankel transform pair (2e-3 on the lattice, 0.05-0.5 of the sup-norm scale in the sampled part): measured to be a property of the transform pair, identical for the identity kernel. Spherical axes: the functional derivative is the exact gradient in the measure r^2 dr; against the library's shell-volume weights it is off by O(dr^2/12 r^2) (bound included). No hook into feos-dft was needed.",
+    "DESIGN.md section 4, C17",
+)
+
 NOT_YET = {}
 
 def main():
